@@ -1,0 +1,77 @@
+/*!
+Thin wrappers exposing crate-private surfaces to the deterministic-simulation harness in `/verif`.
+
+Only compiled under `--cfg raindb_verif`. Nothing in here contains logic of its own; it forwards to
+the crate-private types the listed properties name (log reader/writer, table files, block cache).
+*/
+
+use std::path::Path;
+use std::sync::Arc;
+
+use crate::fs::FileSystem;
+use crate::logs::{LogReader, LogWriter};
+use crate::tables::block::DataBlockReader;
+use crate::tables::{BlockCacheKey, Table};
+use crate::utils::cache::LRUCache;
+use crate::{Cache, DbOptions, RainDBError, RainDBResult, RainDbIterator, ReadOptions};
+
+/// Wrapper around the crate-private [`LogWriter`].
+pub struct VerifLogWriter(LogWriter);
+
+impl VerifLogWriter {
+    /// See [`LogWriter::new`].
+    pub fn new(fs: Arc<dyn FileSystem>, path: &Path, is_appending: bool) -> RainDBResult<Self> {
+        Ok(VerifLogWriter(LogWriter::new(fs, path, is_appending)?))
+    }
+
+    /// See [`LogWriter::append`].
+    pub fn append(&mut self, data: &[u8]) -> RainDBResult<()> {
+        Ok(self.0.append(data)?)
+    }
+}
+
+/// Wrapper around the crate-private [`LogReader`].
+pub struct VerifLogReader(LogReader);
+
+impl VerifLogReader {
+    /// See [`LogReader::new`].
+    pub fn new(fs: Arc<dyn FileSystem>, path: &Path, initial_offset: usize) -> RainDBResult<Self> {
+        Ok(VerifLogReader(LogReader::new(fs, path, initial_offset)?))
+    }
+
+    /// See [`LogReader::read_record`]. Returns `(record, is_eof)`.
+    pub fn read_record(&mut self) -> RainDBResult<(Vec<u8>, bool)> {
+        Ok(self.0.read_record()?)
+    }
+}
+
+/// Create a block cache with the given capacity (the key/value types are crate-private).
+pub fn new_block_cache(capacity: usize) -> Arc<dyn Cache<BlockCacheKey, Arc<DataBlockReader>>> {
+    Arc::new(LRUCache::<BlockCacheKey, Arc<DataBlockReader>>::new(capacity))
+}
+
+/// One internal entry of a table file: (user key, sequence number, operation tag, value).
+pub type VerifTableEntry = (Vec<u8>, u64, u8, Vec<u8>);
+
+/// Read every internal entry of the table file with the given number, in file order.
+pub fn table_entries(options: &DbOptions, file_number: u64) -> RainDBResult<Vec<VerifTableEntry>> {
+    let file_name_handler = crate::file_names::FileNameHandler::new(options.db_path().to_string());
+    let path = file_name_handler.get_table_file_path(file_number);
+    let file = options.filesystem_provider().open_file(&path)?;
+    let table = Arc::new(Table::open(options.clone(), file)?);
+    let mut iter = Table::iter_with(table, ReadOptions::default());
+    let mut entries = vec![];
+    iter.seek_to_first().map_err(RainDBError::from)?;
+    while iter.is_valid() {
+        let (key, value) = iter.current().unwrap();
+        entries.push((
+            key.get_user_key().to_vec(),
+            key.get_sequence_number(),
+            key.get_operation() as u8,
+            value.clone(),
+        ));
+        iter.next();
+    }
+
+    Ok(entries)
+}
